@@ -2,3 +2,5 @@
 //! module without changing any visibility in the repository.
 #![allow(dead_code, unused_imports)]
 use super::*;
+pub use super::indexes::IndexRange;
+pub use super::logs::SegmentLogReader;
